@@ -48,13 +48,39 @@ def layout_text(lay):
 
 def memref_text(ty):
     shp = "".join(f"{_q(x)}x" for x in ty["shape"])
-    return f"memref<{shp}{ty['elt']}{layout_text(ty['layout'])}>"
+    sp = f', "{ty["space"]}"' if ty.get("space") else ""
+    return f"memref<{shp}{ty['elt']}{layout_text(ty['layout'])}{sp}>"
 
 
 def module_text(case):
     ts, td = memref_text(case["src"]), memref_text(case["dst"])
     return (f'func.func @f(%a : {ts}, %b : {td}) {{\n  "memref.copy"(%a, %b) : ({ts}, {td}) -> ()\n'
             f'  func.return\n}}\n')
+
+
+def multi_module_text(case):
+    """several functions, several copies per function; optionally inside an scf.for with constant bounds and with
+    operands that are results of ops in the body instead of block arguments."""
+    out = []
+    for fi, f in enumerate(case["funcs"]):
+        tys = [(memref_text(c["src"]), memref_text(c["dst"])) for c in f["copies"]]
+        body = []
+        if f.get("via_ops"):
+            args = ""
+            for j, (ts, td) in enumerate(tys):
+                body.append(f'  %a{j} = "test.source"() : () -> {ts}')
+                body.append(f'  %b{j} = "test.source"() : () -> {td}')
+        else:
+            args = ", ".join(f"%a{j} : {ts}, %b{j} : {td}" for j, (ts, td) in enumerate(tys))
+        copies = [f'"memref.copy"(%a{j}, %b{j}) : ({ts}, {td}) -> ()' for j, (ts, td) in enumerate(tys)]
+        if f.get("loop"):
+            body += ["  %c0 = arith.constant 0 : index", f"  %cn = arith.constant {f['loop']} : index",
+                     "  %c1 = arith.constant 1 : index", "  scf.for %i = %c0 to %cn step %c1 {"]
+            body += ["    " + c for c in copies] + ["  }"]
+        else:
+            body += ["  " + c for c in copies]
+        out.append(f"func.func @f{fi}({args}) {{\n" + "\n".join(body) + "\n  func.return\n}\n")
+    return "".join(out)
 
 
 # ------------------------------------------------------------------------------------------------------
@@ -104,6 +130,8 @@ def interp_block(block, env, rts, calls):
             pass
         elif isinstance(op, memref.CopyOp):
             calls.append(["copy"])
+        elif getattr(getattr(op, "op_name", None), "data", None) == "test.source":
+            rts[op.results[0]] = rts["__pending__"].pop(0)
         else:
             raise Unsupported(op.name)
 
@@ -218,6 +246,19 @@ def tile_divides(case):
                     if case["rs"]["shape"][d] % inner:
                         return False
     return True
+
+
+def zero_stride_tiled(case):
+    """clause of strided_source_address (`s != 0`): a strided operand with a static stride 0 (broadcast) whose dimension
+    is tiled to more than one depth by the other side's TSL -- from_stride's truthiness test turns the outer step into
+    `None` (finding D42)."""
+    for a, b in (("src", "dst"), ("dst", "src")):
+        la, lb = case[a]["layout"], case[b]["layout"]
+        if la and "strided" in la and lb and "tsl" in lb:
+            for d, st in enumerate(la["strided"]):
+                if st == 0 and d < len(lb["tsl"]["ts"]) and len(lb["tsl"]["ts"][d]) > 1:
+                    return True
+    return False
 
 
 def equal_tile_bounds(case):
@@ -374,12 +415,34 @@ def gen_case(rng, tier, odd=False):
                 if top in dyn:
                     rd["strides"] = list(rs["strides"])
                     rd["strides"][top] = rs["strides"][top] + rng.choice([0, 1, 2, 5])
+    if rng.random() < 0.3:
+        # memory spaces as in the upstream inputs (ignored by the pass)
+        src = dict(src, space=rng.choice(["L3", "L1"]))
+        dst = dict(dst, space=rng.choice(["L1", "L3"]))
     return {"kind": "copy", "src": src, "dst": dst, "rs": rs, "rd": rd}
+
+
+def gen_module(rng, tier):
+    """several copies in one module: two or three functions / several copies per function / a copy inside scf.for /
+    operands defined by ops. Every copy gets its own disjoint memory regions."""
+    funcs = []
+    j = 0
+    for _ in range(rng.choice([1, 2, 2, 3])):
+        copies = []
+        for _ in range(rng.choice([1, 2, 2, 3])):
+            c = gen_case(rng, tier) if rng.random() < 0.6 else gen_special(rng)
+            c = json_copy(c)
+            c["rs"]["base"] = (1 << 22) * (2 * j + 1)
+            c["rd"]["base"] = (1 << 22) * (2 * j + 2)
+            j += 1
+            copies.append(c)
+        funcs.append({"copies": copies, "loop": rng.choice([0, 0, 0, 2, 3]), "via_ops": rng.random() < 0.3})
+    return {"kind": "module", "funcs": funcs}
 
 
 def gen_special(rng):
     """hand-shaped families: upstream filecheck inputs, equal steps with unit bounds, single-element LCB."""
-    fam = rng.randrange(12)
+    fam = rng.randrange(13)
     bits = rng.choice(WIDTHS)
     el = el_bytes(bits)
 
@@ -456,6 +519,21 @@ def gen_special(rng):
         return {"kind": "copy", "src": ty([n] * k, {"tsl": {"ts": ts_s, "offset": 0}}),
                 "dst": ty([n] * k, {"tsl": {"ts": ts_d, "offset": 0}}),
                 "rs": rt(SRC_BASE, [n] * k), "rd": rt(DST_BASE, [n] * k)}
+    if fam == 12:  # zero stride: a broadcast source (every row / column is the same data)
+        n, m = rng.choice([2, 4]), rng.choice([2, 4])
+        sst = [0, 1] if rng.random() < 0.6 else [1, 0]
+        k = rng.random()
+        if k < 0.35:
+            dlay = None
+        elif k < 0.6:
+            dlay = {"strided": [m * 2, 1], "offset": rng.choice([0, 3])}
+        elif k < 0.8:
+            dlay = {"tsl": {"ts": [[[m, n]], [[1, m]]], "offset": 0}}
+        else:  # tiled destination: from_stride's truthiness makes the outer source step dynamic (D42)
+            dlay = {"tsl": {"ts": [[[2 * m, n // 2], [m, 2]], [[1, m]]], "offset": 0}}
+        drt = [m * 2, 1] if dlay and "strided" in dlay else []
+        return {"kind": "copy", "src": ty([n, m], {"strided": sst, "offset": 0}), "dst": ty([n, m], dlay),
+                "rs": rt(SRC_BASE, [n, m], sst), "rd": rt(DST_BASE, [n, m], drt, dlay["offset"] if drt else 0)}
     if fam in (10, 11):
         # the SAME memref type on both sides, but different run-time descriptors: everything that is dynamic in the type
         # (strides `?`, offset `?`, extents `?`) is a per-memref run-time value (two subviews of different parents).
@@ -499,7 +577,7 @@ def gen_special(rng):
 
 def gen_malformed(rng):
     """inputs outside the property's quantifier: the two sides must only agree on the outcome."""
-    fam = rng.randrange(9)
+    fam = rng.randrange(12)
 
     def ty(shape, lay, elt="i32", el=4, isint=True):
         return {"shape": shape, "elt": elt, "el": el, "int": isint, "layout": lay}
@@ -520,6 +598,15 @@ def gen_malformed(rng):
                 "src": ty([None], {"tsl": {"ts": [[[4, 2], [1, None]]], "offset": 0}}),
                 "dst": ty([None], None),
                 "rs": rt(SRC_BASE, [8]), "rd": rt(DST_BASE, [8])}
+    if fam in (9, 10):  # the debugging option test_ignore_transform (true: always a 1-D transfer; None: as false)
+        c = gen_case(rng, "quick") if rng.random() < 0.7 else gen_special(rng)
+        c["ignore"] = True if fam == 9 else None
+        if fam == 9:
+            c["kind"] = "malformed"
+        return c
+    if fam == 11:  # rank 0: default source, strided destination: the DESTINATION's `if not strides: return`
+        return {"kind": "malformed", "src": ty([], None), "dst": ty([], {"strided": [], "offset": 0}),
+                "rs": rt(SRC_BASE, []), "rd": rt(DST_BASE, [])}
     if fam == 4:  # rank 0, default layout: `assert total_size_op is not None` in MatchSimpleCopy
         return {"kind": "malformed", "src": ty([], None), "dst": ty([], None),
                 "rs": rt(SRC_BASE, []), "rd": rt(DST_BASE, [])}
@@ -581,8 +668,10 @@ class C05(Prop):
                 yield gen_case(rng, tier)
             elif r < 0.75:
                 yield gen_case(rng, tier, odd=True)
-            elif r < 0.95:
+            elif r < 0.92:
                 yield gen_special(rng)
+            elif r < 0.95:
+                yield gen_module(rng, tier)
             else:
                 yield gen_malformed(rng)
         if tier == "thorough":
@@ -611,7 +700,37 @@ class C05(Prop):
                            "rd": {"base": DST_BASE, "shape": [n0, n1], "strides": [], "offset": 0}}
 
     # -- real code
+    def impl_module(self, case):
+        """the pass on a whole module (state across operations / functions), next to every copy lowered alone"""
+        import snaxrun
+        from snaxc.transforms.snax_copy_to_dma import SNAXCopyToDMA
+        from xdsl.dialects import func
+        module = snaxrun.parse(multi_module_text(case))
+        SNAXCopyToDMA().apply(snaxrun.ctx(), module)
+        module.verify()
+        funcs = []
+        for fi, f in enumerate(case["funcs"]):
+            fop = [o for o in module.ops if isinstance(o, func.FuncOp) and o.sym_name.data == f"f{fi}"][0]
+            descs = [d for c in f["copies"] for d in (c["rs"], c["rd"])]
+            rts = {"__pending__": list(descs)}
+            if not f.get("via_ops"):
+                rts.update(dict(zip(fop.body.block.args, descs)))
+            calls = []
+            interp_block(fop.body.block, {}, rts, calls)
+            funcs.append({"calls": calls})
+        decls = sorted(o.sym_name.data for o in module.ops if isinstance(o, func.FuncOp) and o.is_declaration)
+        alone = []
+        for f in case["funcs"]:
+            for c in f["copies"]:
+                try:
+                    alone.append(self.impl(c))
+                except BaseException as e:
+                    alone.append({"raised": type(e).__name__})
+        return {"funcs": funcs, "decls": decls, "alone": alone}
+
     def impl(self, case):
+        if case["kind"] == "module":
+            return self.impl_module(case)
         import snaxrun
         from snaxc.ir.tsl import TiledStridedLayout
         from snaxc.transforms.snax_copy_to_dma import SNAXCopyToDMA
@@ -626,7 +745,10 @@ class C05(Prop):
             return r
         TiledStridedLayout.largest_common_contiguous_block = wrapped
         try:
-            SNAXCopyToDMA().apply(snaxrun.ctx(), module)
+            if "ignore" in case:  # pass option test_ignore_transform = true / None (None means false)
+                SNAXCopyToDMA(test_ignore_transform=case["ignore"]).apply(snaxrun.ctx(), module)
+            else:
+                SNAXCopyToDMA().apply(snaxrun.ctx(), module)
         finally:
             TiledStridedLayout.largest_common_contiguous_block = orig
         module.verify()
@@ -645,13 +767,16 @@ class C05(Prop):
 
     # -- model
     def requests(self, case):
+        if case["kind"] == "module":
+            return [r for f in case["funcs"] for c in f["copies"] for r in self.requests(c)]
         idxs = self._sample_idxs(case)
 
         def mt(t):
             return {"shape": t["shape"], "el": t["el"], "int": t["int"], "layout": t["layout"]}
         # C05_BYVALUE=1: model of the code BEFORE fix F21 (LCB membership by Stride value), for an unpatched tree
         return [{"fn": "c05.lower", "args": {"src": mt(case["src"]), "dst": mt(case["dst"]), "rs": case["rs"],
-                                             "rd": case["rd"], "idxs": idxs, "byValue": BYVALUE}}]
+                                             "rd": case["rd"], "idxs": idxs, "byValue": BYVALUE,
+                                             "ignore": bool(case.get("ignore"))}}]
 
     def _sample_idxs(self, case):
         shape = case["rs"]["shape"]
@@ -667,6 +792,23 @@ class C05(Prop):
         return pts
 
     def model(self, case, answers):
+        if case["kind"] == "module":
+            alone = [self.model(c, [a]) for (c, a) in zip([c for f in case["funcs"] for c in f["copies"]], answers)]
+            raised = [m for m in alone if "raised" in m]
+            if raised:
+                return {"raised": raised[0]["raised"], "_alone": alone}
+            funcs, k, names = [], 0, set()
+            for f in case["funcs"]:
+                calls = []
+                for _ in f["copies"]:
+                    calls += alone[k]["calls"]
+                    names |= {"snax_dma_1d_transfer" if c[0] == "1d" else "snax_dma_2d_transfer" for c in alone[k]["calls"][:1]}
+                    if not alone[k]["calls"]:
+                        # zero-trip nests still contain the call op
+                        names.add("snax_dma_2d_transfer" if alone[k].get("nest") else "snax_dma_1d_transfer")
+                    k += 1
+                funcs.append({"calls": calls * (f["loop"] or 1)})
+            return {"funcs": funcs, "decls": sorted(names), "_alone": alone}
         a = answers[0]
         if "err" in a:
             return {"model_error": a["err"]}
@@ -688,6 +830,20 @@ class C05(Prop):
     def compare(self, case, impl_out, model_out):
         if model_out is None:
             return None
+        if case["kind"] == "module":
+            alone_m = model_out.get("_alone", [])
+            if "raised" in impl_out or "raised" in model_out:
+                return None if impl_out.get("raised") == model_out.get("raised") else "impl and model outputs differ"
+            if canon_json(impl_out["funcs"]) != canon_json(model_out["funcs"]):
+                return "whole-module lowering differs from the model's per-operation lowering"
+            if impl_out["decls"] != model_out["decls"]:
+                return f"external declarations {impl_out['decls']} but the calls need {model_out['decls']}"
+            subs = [c for f in case["funcs"] for c in f["copies"]]
+            for c, io, mo in zip(subs, impl_out["alone"], alone_m):
+                d = self.compare(c, io, mo)
+                if d:
+                    return "copy alone: " + d
+            return None
         m = dict(model_out)
         addrs = m.pop("_addrs", None)
         m.pop("_entries", None)  # ResolutionConsistent is a theorem now (C05.resolution_consistent)
@@ -697,7 +853,8 @@ class C05(Prop):
         if canon_json(i) != canon_json(m):
             return "impl and model outputs differ"
         # the model's layout-defined address (the one its theorem speaks about) against the specification side
-        if addrs is not None and case["kind"] == "copy" and self._in_quantifier(case) and tile_divides(case):
+        if (addrs is not None and case["kind"] == "copy" and self._in_quantifier(case) and tile_divides(case)
+                and not zero_stride_tiled(case)):
             fs, fd = addr_fn(case["src"], case["rs"]), addr_fn(case["dst"], case["rd"])
             el = case["src"]["el"]
             offs = case["rs"]["base"], case["rd"]["base"]
@@ -723,10 +880,37 @@ class C05(Prop):
 
     # -- property on the real code
     def _in_quantifier(self, case):
-        return (case["kind"] == "copy" and equal_tile_bounds(case) and static_bounds_match_shape(case)
+        # test_ignore_transform=true is documented as producing wrong data: no property is claimed for it
+        return (case["kind"] == "copy" and not case.get("ignore") and equal_tile_bounds(case) and static_bounds_match_shape(case)
                 and case["src"]["shape"] == case["dst"]["shape"])
 
+    def oracle_module(self, case, impl_out):
+        """(a) every operation of a module is lowered exactly as it is alone (no state survives from one operation,
+        function or loop body to the next); (b) the property for every copy alone. The copies use disjoint memory, so
+        (a) and (b) give the property for the module."""
+        if "raised" in impl_out:
+            return []
+        out = []
+        subs = [c for f in case["funcs"] for c in f["copies"]]
+        k = 0
+        for fi, f in enumerate(case["funcs"]):
+            exp = []
+            for _ in f["copies"]:
+                a = impl_out["alone"][k]
+                exp += a.get("calls") or []
+                k += 1
+            exp = exp * (f["loop"] or 1)
+            if impl_out["funcs"][fi]["calls"] != exp:
+                out.append({"what": f"function f{fi}: the DMA calls of the module differ from the calls of its copies "
+                                    f"lowered one by one ({len(impl_out['funcs'][fi]['calls'])} vs {len(exp)} calls)",
+                            "finding": None})
+        for c, a in zip(subs, impl_out["alone"]):
+            out += self.oracle(c, a)
+        return out
+
     def oracle(self, case, impl_out):
+        if case["kind"] == "module":
+            return self.oracle_module(case, impl_out)
         if not self._in_quantifier(case):
             return []
         if "raised" in impl_out or impl_out.get("unchanged"):
@@ -768,7 +952,9 @@ class C05(Prop):
         if not problems:
             return []
         fid = None
-        if not tile_divides(case):
+        if zero_stride_tiled(case):
+            fid = "D42"
+        elif not tile_divides(case):
             fid = "D32"
         elif any(s[0] is None for s in impl_out.get("lcb") or []):
             fid = "D40"
@@ -777,10 +963,18 @@ class C05(Prop):
         return [{"what": "; ".join(problems), "finding": fid}]
 
     def nontrivial(self, case, impl_out):
+        if case.get("kind") == "module":
+            return isinstance(impl_out, dict) and any(f["calls"] for f in impl_out.get("funcs", []))
         c = impl_out.get("calls") if isinstance(impl_out, dict) else None
         return bool(c) and (len(c) > 1 or (c[0][0] == "2d" and c[0][6] > 1))
 
     def stats_key(self, case, impl_out):
+        if case.get("kind") == "module":
+            n = sum(len(f["copies"]) for f in case["funcs"])
+            tag = "raised" if isinstance(impl_out, dict) and "raised" in impl_out else "ok"
+            return (f"module:{len(case['funcs'])}funcs:{n}copies:" + ("loop:" if any(f["loop"] for f in case["funcs"]) else "")
+                    + ("viaops:" if any(f["via_ops"] for f in case["funcs"]) else "") + tag)
+
         def k(t):
             lay = t["layout"]
             return "none" if lay is None else ("tsl" if "tsl" in lay else "strided")
@@ -795,6 +989,21 @@ class C05(Prop):
         return base + ":" + c[0][0] + (f"+{n}loops" if n else "")
 
     def shrink(self, case):
+        if case.get("kind") == "module":
+            for fi, f in enumerate(case["funcs"]):
+                if len(case["funcs"]) > 1:
+                    c = json_copy(case)
+                    del c["funcs"][fi]
+                    yield c
+                for j in range(len(f["copies"])):
+                    if len(f["copies"]) > 1:
+                        c = json_copy(case)
+                        del c["funcs"][fi]["copies"][j]
+                        yield c
+            return
+        yield from self._shrink_copy(case)
+
+    def _shrink_copy(self, case):
         # smaller run-time extents for dynamic dims; drop offsets
         for d, x in enumerate(case["src"]["shape"]):
             if x is None and case["rs"]["shape"][d] > 1:
